@@ -11,7 +11,7 @@ pre-release setting — for **every** operator (for `===` since C05-fix-1, for `
 A side lemma of independent use: no accepted version string contains `*` (so a version is never mistaken
 for a `V.*` prefix pattern).
 -/
-namespace SS
+namespace SSet
 open Py V S
 
 /-! ## no accepted version string contains `*` -/
@@ -180,9 +180,9 @@ theorem endsWith_star_false (s : Str) (v : Ver) (h : scan s = some v) : endsWith
       rw [he.1] at this
       exact hn this
 
-end SS
+end SSet
 
-namespace SS
+namespace SSet
 open Py V S
 
 /-! ## the key of a specifier, made explicit -/
@@ -385,4 +385,4 @@ theorem equal_specs_same_prereleases (a b : Spec) (hk : key a = key b) (ov : Opt
       simp only [Spec.prereleases, ← hop, endsWith_star_false a.ver va ha, endsWith_star_false b.ver vb hb,
         Bool.and_false, Bool.false_eq_true, ↓reduceIte, ha, hb, Ver.isPre, hpre, hdev]
 
-end SS
+end SSet
